@@ -33,6 +33,8 @@ structure Sim where
   jamMs : Nat := 0
   jam : Bool := false                -- the jam duration has elapsed since the last sign of life
   expiryArr : Nat := 0
+  expOn : Bool := false              -- a short expiry duration is in force (`exp:<ms>`)
+  armed : List Nat := []             -- workers that entered their select with the short timer
 
 def budgetOf (m : Sim) (pt : String) : Nat := ((m.budget.find? (·.1 == pt)).map (·.2)).getD 0
 def setBudget (m : Sim) (pt : String) (n : Nat) : Sim :=
@@ -59,7 +61,7 @@ def workerStep (m : Sim) (w : Nat) : Option Sim :=
   match m.s.workers[w]? with
   | some .top =>
     (app m (.wCheck w)).map fun m1 =>
-      let m1 := { m1 with jam := false }
+      let m1 := { m1 with jam := false, armed := if m1.expOn then w :: m1.armed.filter (· != w) else m1.armed.filter (· != w) }
       match m1.s.workers[w]? with
       | some WPc.sel => let (m2, p) := arrive m1 "wclosed"; if p then { m2 with parkedW := (w, "wclosed") :: m2.parkedW } else m2
       | _ => m1
@@ -262,14 +264,14 @@ def doOp (m : Sim) (tok : String) : Sim × String :=
       | some a => if a.s.workers.length > acc.s.workers.length then { a with jam := false } else a
       | none => acc) m
     (quiesce fuel0 m1, "pre")
-  | ["exp", _] => (m, "exp")
+  | ["exp", ms] => ({ m with expOn := ms.toNat! > 0 && ms.toNat! < 1000 }, "exp")
   | ["sleep", ms] =>
     let m1 := if m.jamMs > 0 && ms.toNat! ≥ 2 * m.jamMs then { m with jam := true } else m
     (m1, "sleep")
   | ["expire", _] =>
     -- one expiry round over the idle workers, in index order
     let m1 := (List.range m.s.workers.length).foldl (fun acc w =>
-      if wParked acc w then acc else
+      if wParked acc w || !acc.armed.contains w then acc else
       match acc.s.workers[w]? with
       | some .sel =>
         match app acc (.wExpire w) with
@@ -345,10 +347,11 @@ def handle (line : String) : String :=
 
     Evaluates the property's own statement on the implementation's observation.  A token of the observation
     that differs from the prediction is a violation when it is about something the property fixes: a
-    monitor report (`viol …`), a hang or crash, a Schedule* answer, how often a job ran (`run=`), how many
-    jobs finished within the grace period although the pool is open (`fin=`), the handler log (`han=`), the
-    concurrency gauge (`g=`), or a worker count above workerSizeMaximum.  Other differences (worker
-    bookkeeping below the maximum, park bookkeeping) are not statements of the property: `allowed`. -/
+    monitor report (`viol …`), a hang or crash, a Schedule* answer, a job that ran twice, a rejected job that
+    ran, an accepted job that did not run within the grace period although the pool was never closed, the
+    handler log (`han=`), the concurrency gauge (`g=`).  Other differences (the counters workerCount /
+    workerBusy, a job running earlier than predicted, park bookkeeping) are not statements of the property:
+    `allowed` (the check then reports `no-failing-input-found`). -/
 def field (obs key : String) : String :=
   match ((obs.splitOn " ").filter (·.startsWith (key ++ "="))) with
   | t :: _ => (t.drop (key.length + 1)).toString
@@ -356,16 +359,35 @@ def field (obs key : String) : String :=
 
 def hasSub (s sub : String) : Bool := (s.splitOn sub).length > 1
 
-def judgeTok (maxW : Nat) (exp imp : String) : Option String :=
+/-- answers of the implementation per job position (creation order): true = the call returned an error -/
+def rejectedPositions (ops : List String) (imps : List String) : List Bool :=
+  ((ops.zip imps).filter (fun (o, _) => o.startsWith "s:" || o.startsWith "t:" || o.startsWith "i:" || o.startsWith "as:")).map
+    fun (_, i) => match i.splitOn "=" with
+      | [_, r] => r != "ok" && r != "parked" && r != "notparked"
+      | _ => false
+
+def runVerdict (closedCase : Bool) (rej : List Bool) (exp imp : String) : Option String :=
+  let es := exp.toList
+  let is := imp.toList
+  if is.any (fun d => d != '0' && d != '1') then some s!"a job ran more than once (run counts {imp})"
+  else
+    let bad := ((es.zip is).zip (rej ++ List.replicate es.length false)).filterMap fun ((e, i), r) =>
+      if i == '1' && r then some s!"a rejected job ran (run counts {imp})"
+      else if e == '1' && i == '0' && !closedCase then
+        some s!"an accepted job did not run within the grace period although the pool is open (run counts {imp}, prescribed {exp})"
+      else none
+    bad.head?
+
+def judgeTok (closedCase : Bool) (rej : List Bool) (exp imp : String) : Option String :=
   if exp == imp then none
   else if imp.startsWith "n=" && exp.startsWith "n=" then
-    let cnt := (((field imp "n").splitOn "/").head?.getD "0").toNat?.getD 0
-    if cnt > maxW then some s!"workerCount {cnt} above workerSizeMaximum {maxW}"
-    else if field imp "run" != field exp "run" then some s!"job run counts {field imp "run"}, the property prescribes {field exp "run"}"
-    else if field imp "fin" != field exp "fin" then some s!"finished {field imp "fin"} jobs, the property prescribes {field exp "fin"}"
-    else if field imp "han" != field exp "han" then some s!"panic handler log {field imp "han"}, the property prescribes {field exp "han"}"
-    else if field imp "g" != "ok" then some s!"concurrency gauge {field imp "g"}"
-    else none
+    match runVerdict closedCase rej (field exp "run") (field imp "run") with
+    | some why => some why
+    | none =>
+      if field imp "han" != field exp "han" && !closedCase then
+        some s!"panic handler log {field imp "han"}, the property prescribes {field exp "han"}"
+      else if field imp "g" != "ok" then some s!"more than workerSizeMaximum jobs executing at once: gauge {field imp "g"}"
+      else none
   else if imp.startsWith "s" || imp.startsWith "t" || imp.startsWith "j" then
     some s!"answer {imp}, the property prescribes {exp}"
   else none
@@ -375,16 +397,20 @@ def judge (line impl : String) : String :=
   if impl == exp then "allowed agrees with the model"
   else if hasSub impl "viol" then s!"violation monitor: {impl}"
   else if impl == "hang" || impl == "crash" || impl == "panic" then s!"violation the pool {impl}s (a job or the harness never returns / the process dies)"
-  else if line.startsWith "stress " then s!"violation stress summary {impl}, the property prescribes {exp}"
+  else if line.startsWith "stress " then
+    if impl.startsWith "note" then "allowed worker bookkeeping differs (not a statement of the property): " ++ impl
+    else s!"violation stress summary {impl}, the property prescribes {exp}"
   else
-    let toks := ((line.drop 6).toString.splitOn ": ").head?.getD ""
-    let maxW := cfgVal ((toks.splitOn " ").filter (· ≠ "")) "max" 1
+    let body := (((line.drop 6).toString.splitOn ": ").drop 1).headD ""
+    let ops := ((body.splitOn ";").map trimS).filter (· ≠ "")
+    let closedCase := ops.any (fun o => o == "close" || o == "aclose")
     let es := (exp.splitOn " | ")
     let is := (impl.splitOn " | ")
     if es.length != is.length then s!"violation observation has {is.length} entries for {es.length} operations"
     else
-      match (es.zip is).filterMap (fun (e, i) => judgeTok maxW e i) with
+      let rej := rejectedPositions ops is
+      match (es.zip is).filterMap (fun (e, i) => judgeTok closedCase rej e i) with
       | why :: _ => s!"violation {why}"
-      | [] => "allowed differs only in worker / park bookkeeping the property does not fix"
+      | [] => "allowed differs only in worker / park bookkeeping or timing the property does not fix"
 
 end FpgoVerif.C09
